@@ -31,6 +31,8 @@ def to_str(v):
         return z3.StringVal(str(v))
     if ty.is_z3(v) and z3.is_int(v):
         return z3.IntToStr(v)
+    if ty.is_z3(v) and z3.is_real(v):
+        return NUMSTR(v)
     raise TypeError(f"not a string: {v!r}")
 
 
@@ -73,6 +75,26 @@ class LinksV(ResponseV):
     pass
 
 
+class HeadResponseV(ResponseV):
+    pass
+
+
+class HeadersV(ResponseV):
+    pass
+
+
+SRV_TOTAL = z3.Function("srv_total_count_header", S, S)          # the x-total-count header the server answers a HEAD request for this URL with
+NUMSTR = z3.Function("str_of_number", z3.RealSort(), S)          # str(x) / "{0}".format(x) of a number: an unspecified function of its value
+
+
+def requests_head(ex, st, args, kwargs, node):
+    """requests.head(url, headers=...): logged like a GET; the answer's headers are a function of the URL (ghost server)"""
+    url = to_str(args[0])
+    log = st.ghost.get("requests", z3.Empty(StrSeq))
+    st.ghost["requests"] = z3.Concat(log, z3.Unit(url))
+    return _out(HeadResponseV(url), st)
+
+
 class NextV(ResponseV):
     pass
 
@@ -92,12 +114,16 @@ def requests_get(ex, st, args, kwargs, node):
 
 def web_attr(ex, st, v, attr, node):
     from .symex import Intrinsic
+    if type(v) is HeadResponseV and attr == "headers":
+        return _out(HeadersV(v.url), st)
     if type(v) is ResponseV and attr == "json":
         return _out(Intrinsic("Response.json", lambda ex_, st_, recv, a, k, n: _out(PayloadV(recv.url), st_), recv=v), st)
     return None
 
 
 def web_getitem(ex, st, v, idx, node):
+    if type(v) is HeadersV and idx == "x-total-count":
+        return _out(SRV_TOTAL(v.url), st)
     if type(v) is PayloadV and idx == "_items":
         return _out(refs_of(SRV_ITEMS(v.url)), st)
     if type(v) is PayloadV and idx == "_links":
